@@ -272,7 +272,7 @@ fn retire_step<const N: usize, const M: usize>(off: u64, limit_set: bool) -> Out
         match r {
             Err(Error::Quic(e)) => {
                 // RFC 9000 §19.16 asks for PROTOCOL_VIOLATION; the code answers CONNECTION_ID_LIMIT_ERROR
-                // (see the pending harness c14_local_retire_unissued_error_kind)
+                // (see the pending harness c14_local_retire_unissued_error_kind_pending)
                 assert!(e.kind() == ErrorKind::ProtocolViolation || e.kind() == ErrorKind::ConnectionIdLimit);
                 assert!(matches!(e.frame_type(), crate::error::ErrorFrameType::V1(FrameType::RetireConnectionId)));
             }
@@ -359,7 +359,7 @@ fn c14_local_retire_n3() {
 #[kani::unwind(6)]
 #[kani::stub(alloc::fmt::format, stub_fmt)]
 #[kani::stub(crate::token::ResetToken::random_gen, stub_token)]
-fn c14_local_retire_unissued_error_kind() {
+fn c14_local_retire_unissued_error_kind_pending() {
     let (mut t, _sh) = any_table::<2>(OFF_FRESH, true);
     let largest = t.cid_deque.largest();
     let seq: u64 = kani::any();
